@@ -487,6 +487,108 @@ def explore_revisions(job):
     return res
 
 
+# ---- earlier-options histories ----------------------------------------------------------------------------------------------------
+# "independent of the build directory's history": the directory was configured under OTHER option values (an earlier command line)
+# and then reconfigured to the present ones (`meson setup --reconfigure -D...`); the result must equal a fresh configuration with the
+# present values.  The values include the dependency search path: the same directories in another order, with a duplicate, one alone -
+# two of them provide the same package with different flags, so what is found depends on the order in force NOW.  Every vector gives
+# every option it varies explicitly ("the same options"); options whose change re-derives the defaults of others (prefix, buildtype's
+# debug/optimization) would make the two directories differ in options nobody named, so prefix is not varied here.
+OPT_VECTORS = [
+    {'pkg_config_path': 'A,B'}, {'pkg_config_path': 'B,A'}, {'pkg_config_path': 'A'}, {'pkg_config_path': 'B'}, {'pkg_config_path': 'A,A,B'},
+    {'pkg_config_path': 'B,A,B'}, {'pkg_config_path': 'A,B', 'default_library': 'static'}, {'pkg_config_path': 'A,B', 'mode': 'two'},
+    {'pkg_config_path': 'A,B', 'buildtype': 'release'}, {'pkg_config_path': 'B,A', 'libdir': 'lib/x'},
+    {'pkg_config_path': 'A,B', 'cmake_prefix_path': '/nonexistent'}, {'pkg_config_path': 'A,B', 'c_args': '-DFROM_OPT'},
+]
+OPT_DEFAULTS = {'default_library': 'shared', 'mode': 'one', 'buildtype': 'debug', 'libdir': 'lib', 'cmake_prefix_path': '', 'c_args': ''}
+OPT_PROJECT = {
+    'meson.build': """project('oh', 'c', version: '1')
+foo = dependency('foo')
+bar = dependency('bar', required: false)
+lib = library('ohl', 'l.c', dependencies: foo, install: true)
+executable('ohe', 'e.c', link_with: lib, dependencies: [foo, bar], c_args: get_option('mode') == 'two' ? ['-DTWO'] : [])
+configure_file(output: 'conf.h', configuration: {'FOO_VERSION': foo.version(), 'BAR': bar.found(), 'MODE': get_option('mode')})
+import('pkgconfig').generate(lib, requires: foo)
+""",
+    'meson.options': "option('mode', type: 'combo', choices: ['one', 'two'], value: 'one')\n",
+    'l.c': 'int ohl(void) { return 1; }\n', 'e.c': 'int main(void) { return 0; }\n',
+    'A/foo.pc': 'Name: foo\nDescription: from A\nVersion: 1.0\nCflags: -DFOO_FROM_A\nLibs: -lm\n',
+    'B/foo.pc': 'Name: foo\nDescription: from B\nVersion: 2.0\nCflags: -DFOO_FROM_B\nLibs: -lm -lrt\n',
+    'B/bar.pc': 'Name: bar\nDescription: only in B\nVersion: 0.5\nCflags: -DBAR\n',
+}
+
+
+def opt_args(vec, src):
+    v = dict(OPT_DEFAULTS, **vec)
+    v['pkg_config_path'] = ','.join(os.path.join(src, d) for d in v['pkg_config_path'].split(','))
+    return ['-D%s=%s' % kv for kv in sorted(v.items())]
+
+
+def explore_options(job):
+    from verif import mesonproc as mp
+    res = {'name': job['name'], 'setups': 0, 'viol': [], 'files': 0, 'skip': None, 'compared': 0, 'opt_histories': 0, 'opt_order_only': 0,
+           'opt_fresh_differ': 0}
+    root = os.path.join(scratch_root(), 'c06o.%d' % os.getpid())
+    shutil.rmtree(root, ignore_errors=True)
+    src, bdir = place(root, 'sibling')
+    mp.write_tree(src, OPT_PROJECT)
+    env = mp.base_env(home=os.path.join(root, 'home'))
+    srv = mp.Server(hashseed=job['seeds'][0])
+    fresh = {}
+
+    def run(extra, vec):
+        res['setups'] += 1
+        return srv.run(['setup'] + extra + [bdir, src] + opt_args(vec, src), root, env=env, timeout=180)
+    try:
+        for i1, i2 in job['pairs']:
+            v1, v2 = OPT_VECTORS[i1], OPT_VECTORS[i2]
+            if i2 not in fresh:
+                shutil.rmtree(bdir, ignore_errors=True)
+                if run([], v2).rc != 0:
+                    res['skip'] = 'option vector %r does not configure' % v2
+                    return res
+                fresh[i2] = fingerprint(bdir)
+            if i1 not in fresh:
+                shutil.rmtree(bdir, ignore_errors=True)
+                if run([], v1).rc != 0:
+                    res['skip'] = 'option vector %r does not configure' % v1
+                    return res
+                fresh[i1] = fingerprint(bdir)
+            res['opt_fresh_differ'] += fresh[i1].get('build.ninja') != fresh[i2].get('build.ninja')
+            for how in job['hows']:
+                shutil.rmtree(bdir, ignore_errors=True)
+                r = run([], v1)
+                if how == 'reconfigure':
+                    r = run(['--reconfigure'], v2)
+                else:       # meson configure, then the regeneration a build would trigger
+                    res['setups'] += 1
+                    r = srv.run(['configure', bdir] + opt_args(v2, src), root, env=env, timeout=180)
+                    if r.rc == 0:
+                        res['setups'] += 1
+                        r = srv.run(['setup', '--reconfigure', bdir, src], root, env=env, timeout=180)
+                rep = {'project': 'option-histories', 'options': True, 'pairs': [[i1, i2]], 'hows': [how]}
+                if r.rc != 0:
+                    res['viol'].append(('C06:reconfigure-fails:earlier-options', 'configured with %r, then %s to %r fails: %s' % (v1, how, v2, r.out[-300:]), rep))
+                    continue
+                res['opt_histories'] += 1
+                same_set = set(v1.get('pkg_config_path', '').split(',')) == set(v2.get('pkg_config_path', '').split(',')) and \
+                    {k: v for k, v in v1.items() if k != 'pkg_config_path'} == {k: v for k, v in v2.items() if k != 'pkg_config_path'}
+                res['opt_order_only'] += same_set
+                F = fingerprint(bdir)
+                res['files'] = len(F)
+                for rel in sorted(set(F) | set(fresh[i2])):
+                    res['compared'] += 1
+                    if F.get(rel) != fresh[i2].get(rel):
+                        changed = sorted(k for k in set(v1) | set(v2) if v1.get(k) != v2.get(k))
+                        res['viol'].append(('C06:differs:%s:earlier-options:%s' % (fclass(rel), '+'.join(changed)),
+                                            'option-histories: %s differs between a directory configured with %r and then brought to %r by %s, and a fresh configuration with the latter%s'
+                                            % (rel, v1, v2, how, first_diff(fresh[i2].get(rel), F.get(rel))), dict(rep, file=rel)))
+    finally:
+        srv.close()
+        shutil.rmtree(root, ignore_errors=True)
+    return res
+
+
 def cells_in_difference(a, b):
     """ids of the build-dir-io cells (c06lib) whose file names occur in words that only one of the two contents has"""
     import re
@@ -510,6 +612,8 @@ def explore_and_reduce(job):
         return explore_machine_files(job)
     if job.get('revisions'):
         return explore_revisions(job)
+    if job.get('options'):
+        return explore_options(job)
     res = explore(job)
     res['wall'] = time.time() - t0
     if 'lang' in job and res['viol'] and not job.get('single'):
@@ -544,6 +648,8 @@ def main():
             job.update(machine_files=True, kinds=d.get('kinds', MF_KINDS))
         if d.get('revisions'):
             job.update(revisions=True, lang=d['lang'], which=d['which'], histories=d['histories'])
+        if d.get('options'):
+            job.update(options=True, pairs=[tuple(x) for x in d['pairs']], hows=d['hows'])
         r = explore_and_reduce(dict(job, single=True))
         for k, w, _ in r['viol']:
             print(k, w)
@@ -602,6 +708,17 @@ def main():
             for i in range(0, len(hists), n):
                 rjobs.append({'name': 'rev%s:%s' % ('-' + lang if lang else '', which), 'lang': lang, 'which': which, 'histories': hists[i:i + n],
                               'seeds': seeds, 'revisions': True, 'matrix': False})
+    # earlier-options family: every ordered pair of option vectors (quick: pairs that involve one of the first six - the search-path
+    # vectors - and single-option changes from the base)
+    nv = len(OPT_VECTORS)
+    opairs = [(a, b) for a in range(nv) for b in range(nv) if a != b and (ck.thorough or (a < 6 and b < 6) or 0 in (a, b))]
+    ojobs = []
+    for k in range(8):
+        part = opairs[k::8]
+        if part:
+            ojobs.append({'name': 'option-histories/%d' % k, 'options': True, 'pairs': part, 'hows': ['reconfigure', 'configure'] if ck.thorough else [('reconfigure', 'configure')[(k + ck.seed) % 2]],
+                          'seeds': seeds, 'matrix': False})
+    optot = {'setups': 0, 'histories': 0, 'files_compared': 0, 'order_only_histories': 0, 'pairs_whose_fresh_configurations_differ': 0}
     rtot = {'projects': 0, 'setups': 0, 'histories': 0, 'compared': 0, 'skipped_invalid_earlier_revision': 0, 'order_changing_histories': 0}
     rkinds = set()
     mtot = {'setups': 0, 'pairs_compared': 0, 'pipe_copies_seen': 0}
@@ -612,7 +729,7 @@ def main():
     pseen = set()
     classes = set()
     # --only matrix,placement,machine,revisions (debugging: no evidence is written then)
-    alljobs = (jobs if ck.want('matrix') else []) + (pjobs if ck.want('placement') else []) + (mjobs if ck.want('machine') else []) + (rjobs if ck.want('revisions') else [])
+    alljobs = (jobs if ck.want('matrix') else []) + (pjobs if ck.want('placement') else []) + (mjobs if ck.want('machine') else []) + (rjobs if ck.want('revisions') else []) + (ojobs if ck.want('options') else [])
     for i, res in enumerate(pmap(explore_and_reduce, alljobs, jobs=min(NCPU, 16 if not ck.thorough else 8), chunksize=1)):
         job = alljobs[i]
         if os.environ.get('VERIF_C06_TIMES'):
@@ -623,6 +740,16 @@ def main():
             mtot['setups'] += res['setups']
             mtot['pairs_compared'] += res['mf_compared']
             mtot['pipe_copies_seen'] += res['mf_pipe_copies']
+            continue
+        if job.get('options'):
+            if res['skip']:
+                ck.internal('option-histories: %s' % res['skip'])
+            optot['setups'] += res['setups']
+            optot['histories'] += res['opt_histories']
+            optot['files_compared'] += res['compared']
+            optot['order_only_histories'] += res['opt_order_only']
+            optot['pairs_whose_fresh_configurations_differ'] += res['opt_fresh_differ']
+            classes.add(('options', res['opt_histories'] > 0))
             continue
         if job.get('revisions'):
             if res['skip']:
@@ -669,6 +796,9 @@ def main():
             outside_dev=not disk_base().startswith('/dev/'), **ptot)
     ck.part('history-stale-dirs', **stot)
     ck.part('machine-file-forms', kinds=len(MF_KINDS), forms=len(MF_FORMS), **mtot)
+    ck.part('history-earlier-options', vectors=OPT_VECTORS, ordered_pairs=len(opairs), **optot)
+    ck.require(not ck.want('options') or (optot['histories'] >= 30 and optot['order_only_histories'] >= 4 and optot['pairs_whose_fresh_configurations_differ'] >= 20) or ck.n_viol,
+               'earlier-options histories vacuous: %r' % optot)
     ck.part('history-earlier-revision', lists=len(c6.REV_LISTS), edit_kinds=4, declaration_kind_x_edit_cells=len(rkinds), **rtot)
     ck.require(not ck.want('revisions') or rtot['compared'] >= 30 and rtot['order_changing_histories'] >= 15 and rtot['skipped_invalid_earlier_revision'] == 0
                and {'option-insert', 'option-swap', 'option-retype', 'option-delete', 'subproject-option-insert', 'dependency-insert', 'dependency-swap', 'target-insert'} <= rkinds,
